@@ -131,11 +131,21 @@ func (f *flush) addTimerMetric(n *Client, metricType string, timer gostatsd.Time
 	}
 }
 
+// batchCapacity is the capacity a new batch is allocated with: the batch size, unless that is larger
+// than the default batch size. The configured value only has to be positive, and allocating a very
+// large one up front exhausts memory or panics (makeslice: cap out of range); append grows the batch.
+func batchCapacity(metricsPerBatch uint) uint {
+	if metricsPerBatch > defaultMetricsPerBatch {
+		return defaultMetricsPerBatch
+	}
+	return metricsPerBatch
+}
+
 func (f *flush) maybeFlush() {
 	if uint(len(f.ts.Metrics))+20 >= f.metricsPerBatch { // flush before it reaches max size and grows the slice
 		f.cb(f.ts)
 		f.ts = &timeSeries{
-			Metrics: make([]interface{}, 0, f.metricsPerBatch),
+			Metrics: make([]interface{}, 0, batchCapacity(f.metricsPerBatch)),
 		}
 	}
 }
